@@ -9,8 +9,8 @@ import Zed.Model.ZsonAnalyze
     values that have the shape of their type, selectors and tags in range, a union value
     that is not null carries a non-null member value, primitive text the lexer classifies
     compatibly with its type (`primOK` — the "primitive text round-trips" parameter).
-  * `plainTy`: the fragment the first-pass theorem covers — no named types, no error types,
-    no record field of union type (see `not_zson_roundtrip_value_*` for what breaks outside).
+  * `plainTy`: the fragment the value theorems cover — no named types (those are handled at
+    the top of a value and over streams), no record field of union type (see `not_zson_roundtrip_value_*` for what breaks outside).
   * `bareEmpty`: a value the formatter writes without the decorator it needs.
 -/
 namespace Zed.Zson
@@ -48,7 +48,7 @@ def wfTys : Tys → Bool
 end
 
 mutual
-/-- no named type, no error type, no record field of union type. -/
+/-- no named type, no record field of union type. -/
 def plainTy : Ty → Bool
   | .prim _ => true
   | .record fs => plainFields fs
@@ -57,7 +57,7 @@ def plainTy : Ty → Bool
   | .map k v => plainTy k && plainTy v
   | .union ts => plainTys ts
   | .enum _ => true
-  | .error _ => false
+  | .error t => plainTy t
   | .named _ _ => false
 def plainFields : Fields → Bool
   | .nil => true
@@ -86,7 +86,7 @@ def wfVal : Ty → Val → Bool
   | .map k v, .map es => wfEntries k v es
   | .union ts, .union tag v => v != .null && (match ts.get? tag with | some m => wfVal m v | none => false)
   | .enum syms, .enum sel => decide (sel < syms.length)
-  | .error t, .error v => wfVal t v
+  | .error t, .error v => v != .null && wfVal t v
   | .named _ t, .named v => v != .null && wfVal t v
   | _, _ => false
 def wfVals : Fields → Vals → Bool
@@ -107,7 +107,29 @@ def bareEmpty : Val → Bool
   | .array .nil => true
   | .set .nil => true
   | .map .nil => true
+  | .error v => bareEmpty v
   | _ => false
+
+mutual
+/-- no error value whose inner value is an empty container: `error([])` is written with the
+    empty container bare (the `TypeError` case of `formatValue` passes `decorate = false`), and
+    when the error type is implied nothing else supplies the type. -/
+def errOK : Val → Bool
+  | .error v => !bareEmpty v && errOK v
+  | .record vs => errOKs vs
+  | .array vs => errOKs vs
+  | .set vs => errOKs vs
+  | .map es => errOKe es
+  | .union _ v => errOK v
+  | .named v => errOK v
+  | _ => true
+def errOKs : Vals → Bool
+  | .nil => true
+  | .cons v r => errOK v && errOKs r
+def errOKe : Entries → Bool
+  | .nil => true
+  | .cons k v r => errOK k && errOK v && errOKe r
+end
 
 /-- names a type may bear: not empty, not numeric (docs/formats/zson.md), not a primitive
     type name (`LookupTypeNamed` refuses those). -/
@@ -152,7 +174,7 @@ end
 def namedTopGuard : Ty → Val → Bool
   | .named n u, .named v =>
     nameOK n && plainTy u && wfTy u && wfVal u v && !v.isNull && !bareEmpty v && noOwnDeco u v &&
-      (enumSyms u).isNone
+      (enumSyms u).isNone && errOK v
   | _, _ => false
 
 /-! ### streams of values (zsonio.Writer / zsonio.Reader, Formatter.Format in a loop) -/
@@ -180,7 +202,7 @@ def analyzeStream : AState → List AVal → Except Err (List TV)
     is not an empty container, or a non-null value of a named type over a plain type
     (`namedTopGuard`) without union-typed container elements. -/
 def itemOK (tv : Ty × Val) : Bool :=
-  (plainTy tv.1 && wfTy tv.1 && wfVal tv.1 tv.2 && !bareEmpty tv.2) ||
+  (plainTy tv.1 && wfTy tv.1 && wfVal tv.1 tv.2 && !bareEmpty tv.2 && errOK tv.2) ||
   (namedTopGuard tv.1 tv.2 && noUnionElems tv.1)
 
 /-- one name, one type — over the whole stream. -/
